@@ -14,7 +14,12 @@ welch, resample, randn/rng, windows, hilbert, czt: every result compared with th
 by two threads is counted through the cache hook; a ThreadSanitizer report is an event without action."""
 import os
 import re
-from . import core, simple
+from . import core, simple, tlcgraph
+
+
+def _tok(label):
+    m = re.match(r"(Begin|Mid|End)\((\d+)", label)
+    return m.group(1)[0] + m.group(2)
 
 
 def check(run, tier, seed, replay=None, only=None):
@@ -34,6 +39,22 @@ def check(run, tier, seed, replay=None, only=None):
     run.extra["per_plan_scratch_model_fails_as_documented"] = True
     k = 1 if quick else 4
     stages = []
+    # behaviours exported from TLC: maximal paths of the state graph of Threads.tla (3 threads x 1 solve, 2 threads x 2
+    # solves on one shared plan) are imposed on the real threads step by step
+    exported = {}
+    for cfg in ("MC_Threads_sched3.cfg", "MC_Threads_sched2.cfg"):
+        inits, edges, nnodes = tlcgraph.dump("Threads.tla", cfg)
+        plist, total = tlcgraph.paths(inits, edges, 5000, seed)
+        exported[cfg] = {"states": nnodes, "maximal_paths_in_model": total, "paths_replayed_on_the_implementation": len(plist)}
+        run.states += nnodes
+        nshard = 4
+        for sh in range(nshard):
+            f = run.path("paths-%s-%d.txt" % (cfg[:-4], sh))
+            with open(f, "w") as fh:
+                for pth in plist[sh::nshard]:
+                    fh.write(" ".join(_tok(x) for x in pth) + "\n")
+            stages.append(("tlcpath-%s-%d" % (cfg[11:-4], sh), ["--mode", "replay", "--sched", f, "--seed", seed * 100 + 80 + sh], "rel"))
+    run.extra["tlc_exported_behaviours"] = exported
     for s in range(2 * k):
         stages.append(("sched-%d" % s, ["--mode", "sched", "--budget", 6 if quick else 20, "--seed", seed * 100 + s], "rel"))
     for i, T in enumerate([2, 4, 16] if quick else [2, 3, 4, 8, 16]):
@@ -44,7 +65,9 @@ def check(run, tier, seed, replay=None, only=None):
                          [("Threads.tla", "MC_Threads_fixed.cfg", "MC_Threads/fixed (ResultPreserved, RaceFree for all interleavings)"),
                           ("MC_PlanCache.tla", "MC_PlanCache_quick.cfg", "MC_PlanCache (Confined: an access never changes another thread's cache)"),
                           ("MC_Random.tla", "MC_Random.cfg", "MC_Random (per-thread determinism under every interleaving)")],
-                         stages, restart=lambda r: r.get("e") in ("Reset", "Stress"), timeout=2400, chunks=1)
+                         stages, restart=lambda r: r.get("e") in ("Reset", "Stress"), timeout=2400)
     run.clause("forced interleavings at the yield points: every result = sequential result", "T1", n or 0)
+    run.clause("every maximal path of the TLC state graph (3x1, 2x2 solves) executed on real threads: steps enabled, results preserved",
+               "T1", sum(v["paths_replayed_on_the_implementation"] for v in exported.values()))
     run.clause("free-running threads: results = single-threaded results; caches confined", "T1m", n or 0)
     run.clause("no ThreadSanitizer report in the free-running phase", "observed", n or 0)
